@@ -309,7 +309,10 @@ def compare_variant(spec: dict[str, Any], base: dict[str, Any], var: dict[str, A
         ok_ref = compare.close_ulps(got, want, 16.0, err=8.0 * spread[name])
         ok_base = compare.close_ulps(got, b0, 8.0, err=2.0 * spread[name])
         if not ok_base:
-            out.append(("C07:value-vs-baseline" + ("" if not ok_ref else ":within-shadow-tol"),
+            prec = got.dtype.kind in "fc" and compare.close_ulps(
+                got, b0, 2.0 ** 30 if got.dtype.itemsize >= 8 else 2.0 ** 10)
+            out.append(("C07:value-vs-baseline" + (":precision-only" if prec else "")
+                        + ("" if not ok_ref else ":within-shadow-tol"),
                         f"output {name} differs from the untagged baseline",
                         {"output": name, "diff": compare.describe_diff(got, b0)}))
         elif not ok_ref:
@@ -338,7 +341,7 @@ def attribute(spec: dict[str, Any], asg: Any, var: dict[str, Any], probs: list[A
                 and var.get("interp_outputs") is not None:
             if tb is None:
                 try:
-                    tb = c01.trusted_base_signatures(var["bp"].program)
+                    tb = c01.trusted_base_signatures(var["bp"].program, var["bp"])
                 except Exception:  # noqa: BLE001
                     tb = set()
             ok_int = True
@@ -361,6 +364,25 @@ def attribute(spec: dict[str, Any], asg: Any, var: dict[str, Any], probs: list[A
                     col.histo("trusted_base_disagreements",
                               "value:loopy-C:subscript-floor-division-printed-truncating")
                     continue
+        if coarse.startswith("C07:value-vs-baseline:precision-only") and asg:
+            # a stored / substituted node whose DECLARED dtype is wider than NumPy's (and
+            # than the type loopy infers for the inlined expression): the temporary is
+            # computed in the wider type, the inlined expression is not -- consequence of a
+            # dtype rule recorded under C03 (known finding), keyed as such
+            try:
+                b0 = ps.PtBuild(spec, vset=vset)
+                sh0 = ps.Shadow(spec, vset)
+                for k, tags in asg.items():
+                    if not any(t[0] in ("stored", "subst") for t in tags):
+                        continue
+                    decl = np.dtype(b0.nodes[int(k)].dtype)
+                    npd = np.asarray(sh0.vals[int(k)]).dtype
+                    if decl.kind in "fc" and npd.kind in "fc" and decl.itemsize > npd.itemsize:
+                        coarse = ("C07:value-vs-baseline:precision-only:"
+                                  "declared-dtype-wider-than-numpy")
+                        break
+            except Exception:  # noqa: BLE001
+                pass
         if coarse.startswith("C07:codegen:") and asg:
             try:
                 ids = [int(k) for k, tags in asg.items()
@@ -486,7 +508,7 @@ def check_case(case: dict[str, Any], col: common.Collector) -> None:
                                        var.get("bp"))
             if lim is None and var["stage"] in ("gcc", "loopy-codegen") and var.get("bp"):
                 try:
-                    tb = c01.trusted_base_signatures(var["bp"].program)
+                    tb = c01.trusted_base_signatures(var["bp"].program, var["bp"])
                 except Exception:  # noqa: BLE001
                     tb = set()
                 if tb:
@@ -634,7 +656,7 @@ def codegen_problem(var: dict[str, Any], col: common.Collector, prefix: str
                                var.get("bp"))
     if lim is None and var["stage"] in ("gcc", "loopy-codegen") and var.get("bp"):
         try:
-            tb = c01.trusted_base_signatures(var["bp"].program)
+            tb = c01.trusted_base_signatures(var["bp"].program, var["bp"])
         except Exception:  # noqa: BLE001
             tb = set()
         if tb:
@@ -670,7 +692,7 @@ def check_sym_case(case: dict[str, Any], col: common.Collector) -> None:
         col.case()
         return
     try:
-        if c01.trusted_base_signatures(base["bp"].program):
+        if c01.trusted_base_signatures(base["bp"].program, base["bp"]):
             col.histo("sym_baseline_failed", "trusted-base-construct")
             col.case()
             return
@@ -705,7 +727,7 @@ def check_sym_case(case: dict[str, Any], col: common.Collector) -> None:
             if v["status"] != "ok":
                 return v, []
             pr = sym_problems(base, v, vals, spreads)
-            if pr and c01.trusted_base_signatures(v["bp"].program):
+            if pr and c01.trusted_base_signatures(v["bp"].program, v["bp"]):
                 col.histo("trusted_base_disagreements", "sym-values")
                 pr = []
             return v, pr
